@@ -110,6 +110,9 @@ type PosArg struct {
 	Base  int    // base tag on an integer positional (0 = none)
 	Req   string // required tag text on the field ("" none, "yes", "2", "1-3")
 	Desc  string
+	// PtrSlice: a positional declared as *[]string: NOT a list - it takes exactly one token (stored as a
+	// one-element slice behind the pointer) and then gives way to the next positional
+	PtrSlice bool
 	// NamedSlice: a rest positional declared with the named slice type StrList instead of []string
 	NamedSlice bool
 	// ExtraLong: a long: tag on the positional field (it must not turn the field into an option)
@@ -119,6 +122,9 @@ type PosArg struct {
 }
 
 func (a *PosArg) GoType() reflect.Type {
+	if a.PtrSlice {
+		return reflect.PtrTo(reflect.TypeOf([]string(nil)))
+	}
 	if a.NamedSlice {
 		return reflect.TypeOf(StrList(nil))
 	}
@@ -984,6 +990,9 @@ func (d *Decl) Describe() interface{} {
 			var as []string
 			for _, a := range c.Pos.Args {
 				ts := a.T.String()
+				if a.PtrSlice {
+					ts = "*[]string"
+				}
 				if a.NamedSlice {
 					ts = "StrList (named []string)"
 				}
